@@ -23,6 +23,8 @@ from tracklib.core.track import Track
 from tracklib.core.obs import Obs
 from tracklib.core.obs_coords import ENUCoords
 import tracklib.algo.interpolation as itp
+from tracklib.algo.cinematics import computeAbsCurv
+from tracklib.algo.analytics import ds as _ds_feature
 
 ID = "C05"
 LEVEL = "exploration"
@@ -43,6 +45,9 @@ ASSUMPTIONS = [
     "for both); the count floor(L/ds) accepts the neighbouring integer when L/ds is within 1e-9 of an integer",
     "tolerances: 1e-9*max(1,|expected|) on x, y, z; 1 ms (+1e-6 s float slack) on timestamps",
     "linear algorithm only (ALGO_LINEAR); the npts/factor front end of Track.resample is not part of the property",
+    "history paths (*-after-edit): the track is first built with another geometry and one more fix, computeAbsCurv / "
+    "estimate_speed / the ds feature are computed on it, then the extra fix is removed and every position is moved in place "
+    "(setX/setY/setZ); the expected resampling is that of the final observations -- stale cached features must not matter",
 ]
 N_VARIANTS = 4
 
@@ -57,6 +62,7 @@ DS = [0.5, 1, 2.5, 4, 5, 7, 100]
 NMAX = {"quick": 3, "thorough": 4}
 TPATHS = ["method", "function", "floordiv"]
 SPATHS = ["method", "function", "method-default-mode"]
+EDITED = ["method-after-edit", "function-after-edit"]      # the same calls on a track reached through a history (see build)
 TOL_T = 1e-3 + 1e-6
 
 OBLIGATIONS = {
@@ -77,6 +83,8 @@ OBLIGATIONS = {
     "sample_on_repeated_fix": "spatial: a sample falls on the abscissa of a repeated position",
     "irrational_leg": "spatial: a sample lies on a leg of irrational length",
     "zero_length_track": "spatial: all fixes at the same position",
+    "after_edit_history": "the call was also made on a track reached through a history (features cached on another "
+                          "geometry, one fix removed, positions moved in place)",
 }
 
 
@@ -113,8 +121,27 @@ def fixes(variant, pts, times):
     return out
 
 
-def build(fx):
-    return Track([Obs(ENUCoords(x, y, z), alpha.obstime(t)) for (x, y, z, t) in fx])
+def build(fx, history="fresh"):
+    """The track under test.  history == "edited": the same final observations reached from a non-initial state --
+    the track starts with another geometry and one more fix, the library computes (and caches as features) its
+    curvilinear abscissa, leg lengths and speed on that geometry, then the extra fix is removed and every position is
+    moved in place to its final value.  What resampling returns may depend on the current observations only."""
+    if history == "fresh":
+        return Track([Obs(ENUCoords(x, y, z), alpha.obstime(t)) for (x, y, z, t) in fx])
+    pre = [(x + 3.0 + 2.0 * k, y - 1.0 - k, z, t) for k, (x, y, z, t) in enumerate(fx)]
+    mid = (pre[0][0] + 40.0, pre[0][1] + 9.0, 5.0, (fx[0][3] + fx[1][3]) / 2.0)
+    pre.insert(1, mid)
+    trk = Track([Obs(ENUCoords(x, y, z), alpha.obstime(t)) for (x, y, z, t) in pre])
+    computeAbsCurv(trk)
+    trk.estimate_speed()
+    trk.addAnalyticalFeature(_ds_feature, "ds")
+    trk.removeObs(1)
+    for k, (x, y, z, t) in enumerate(fx):
+        pos = trk.getObs(k).position
+        pos.setX(x)
+        pos.setY(y)
+        pos.setZ(z)
+    return trk
 
 
 def rel_list(variant, times):
@@ -250,6 +277,13 @@ def observe(trk):
     return (n, [float(v) for v in X], [float(v) for v in Y], [float(v) for v in Z], [float(v) for v in T])
 
 
+def _track_for(path, fx):
+    """-> (plain path, guard result of building the track)"""
+    if path.endswith("-after-edit"):
+        return path[:-len("-after-edit")], guard(build, fx, "edited")
+    return path, guard(build, fx)
+
+
 def call_temporal(path, trk, arg):
     """Returns (status, resampled track | message)."""
     if path == "method":
@@ -324,12 +358,17 @@ def check_temporal(variant, pts, times, arg, ctx):
     fx = fixes(variant, pts, times)
     inst = requested_instants(variant, fx, arg)
     exp = ref_temporal(fx, inst)
-    paths = TPATHS if arg["kind"] == "track" else TPATHS[:2]
+    paths = (TPATHS if arg["kind"] == "track" else TPATHS[:2]) + EDITED
     fails = {}
     for p in paths:
-        f = _judge_temporal(fx, exp, call_temporal(p, build(fx), make_arg(variant, arg)))
+        plain, (bst, trk) = _track_for(p, fx)
+        if bst != "ok":
+            fails[p] = ("raises", "building the track through the edit history: %s" % (trk,))
+            continue
+        f = _judge_temporal(fx, exp, call_temporal(plain, trk, make_arg(variant, arg)))
         if f is not None:
             fails[p] = f
+    ctx.oblige("after_edit_history")
     # ---- bookkeeping ------------------------------------------------------------
     T = [Fr(f[3]) for f in fx]
     zero_legs = [k for k in range(len(fx) - 1) if fx[k][:2] == fx[k + 1][:2]]
@@ -409,15 +448,21 @@ def check_spatial(variant, pts, times, ds, ctx):
     S = abscissas(fx)
     L = S[-1]
     fails = {}
-    for p in SPATHS:
-        f = _judge_spatial(fx, S, ds, call_spatial(p, build(fx), ds))
+    spaths = SPATHS + EDITED
+    for p in spaths:
+        plain, (bst, trk) = _track_for(p, fx)
+        if bst != "ok":
+            fails[p] = ("raises", "building the track through the edit history: %s" % (trk,))
+            continue
+        f = _judge_spatial(fx, S, ds, call_spatial(plain, trk, ds))
         if f is not None:
             fails[p] = f
+    ctx.oblige("after_edit_history")
     # ---- bookkeeping ------------------------------------------------------------
     zero_legs = [j for j in range(len(fx) - 1) if S[j] == S[j + 1]]
     nk = int(math.floor(L / ds + 1e-9))
     on_vertex = [k for k in range(1, nk + 1) if any(abs(k * ds - S[j]) <= 1e-9 for j in range(1, len(S)))]
-    ctx.case(bool(on_vertex) or bool(zero_legs), len(SPATHS))
+    ctx.case(bool(on_vertex) or bool(zero_legs), len(spaths))
     if L == 0:
         ctx.oblige("zero_length_track")
     elif nk == 0:
@@ -438,11 +483,11 @@ def check_spatial(variant, pts, times, ds, ctx):
     if not fails:
         return
     classes = set(f[0] for f in fails.values())
-    if len(fails) == len(SPATHS) and len(classes) == 1:
-        cls, det = fails[SPATHS[0]]
-        ctx.violation("resample-spatial/%s" % cls, case, {"paths": SPATHS, "detail": det})
+    if len(fails) == len(spaths) and len(classes) == 1:
+        cls, det = fails[spaths[0]]
+        ctx.violation("resample-spatial/%s" % cls, case, {"paths": spaths, "detail": det})
     else:
-        for p in SPATHS:
+        for p in spaths:
             if p in fails:
                 ctx.violation("resample-spatial/%s/only-through-%s" % (fails[p][0], p), case,
                               {"paths": [p], "detail": fails[p][1]})
